@@ -6,6 +6,7 @@ ASSUME = [
     'general integer tensors: the error bounds use numpy singular values of the exact unfoldings (numeric evaluator in the trusted base)',
     'the relative-threshold error bound is claimed for TT(full array) only (as in the property); ortho_left/ortho_right with a cap on a non-canonical train are held to the rank cap only',
     'thresholds are rationals away from ties of the planted spectrum',
+    'MatSvd: utils.truncated_svd (the helper behind the HOSVD-type routines) on every unfolding of the islands, relative and absolute thresholds, rank caps as int / numpy.int64 / inf, C- and Fortran-ordered matrices; the caller\'s matrix is not required to survive (overwrite_a is part of the helper)',
 ]
 RULE = ('TLC enumerates the island catalogue x gauging x every per-bond cap list (ortho(max_rank)) and every '
         '(max_rank, threshold) of TT(array), plus all small general shapes x caps; expected truncated tensors, ranks and '
@@ -17,7 +18,7 @@ def runs(tier):
     base = dict(MaxD=3, MaxDB=1, DimsR={1, 2}, DimsC={1, 2}, RanksS={1, 2, 3}, Seeds={1}, MaxDepth=1, EmitAll=False,
                 Vias={'matmul'}, QL=1, OWs={False}, Lean=False, IslLevel=1 if q else 2)
     out = []
-    out.append(dict(name='isl', nshards=8, constants=dict(base, Scenarios={'odeco'}, Ops={'IslOrthoTrunc', 'FromArray'},
+    out.append(dict(name='isl', nshards=8, constants=dict(base, Scenarios={'odeco'}, Ops={'IslOrthoTrunc', 'FromArray', 'MatSvd'},
                                                           KindPairs={('real', 'real')})))
     out.append(dict(name='gen', constants=dict(base, MaxD=3 if q else 4, DimsR={2, 3}, DimsC={1}, RanksS={1, 2, 3} if q else {2, 3},
                                                Scenarios={'single'}, Ops={'FromArray', 'OrthoTrunc'},
